@@ -281,6 +281,8 @@ impl<'tcx> CFormatter<'tcx> {
             .trim()
             .replace('\n', "\n * ")
             .replace(" \n", "\n")
+            // the text ends up inside a `/** … */` block
+            .replace("*/", "* /")
     }
 
     pub(crate) fn fmt_identifier<'a>(&self, name: Cow<'a, str>) -> Cow<'a, str> {
